@@ -360,6 +360,22 @@ example : RcS.find 5 (RcS.runF RcS.applyOp RcS.RefineEx.ops).hs = some 8 ∧
 example : RcS.find 7 (RcS.runF RcS.applyOp (RcS.RefineEx.ops ++ [.apply 5 1 7])).hs = some 9 := by decide
 
 /-!
+## closed since the last refresh of this file
+
+No item of the list below was closed.  Related material that is new:
+
+* The class behind "a symbolic assignment is a `List (Option Bool)`" is modelled as coded (`Vata/Glue.lean`): the packed
+  two-bits-per-variable representation implements the sequence of values (`Util_Glue_asgn_packed`), `SymbolicVarAsgn(size, n)` is
+  the binary representation of `n` for `size ≤ 31` – with undefined behaviour beyond 32 variables (`Util_Glue_asgn_ofNum`,
+  `Util_Glue_asgn_ofNum_limits`) –, `GetVectorOfConcreteSymbols` enumerates exactly the total assignments in the cube
+  (`Util_Glue_asgn_concretize`), `operator<` is a strict total order (`Util_Glue_asgn_lt_strict_total_order`).
+* An apply whose leaf operation has a SIDE EFFECT (the `IntersectionApplyFunctor` of the BDD automata, which allocates
+  product states): the result is the pure `M.apply2` of the pairing operation for the translation map left behind, and a
+  repeated call on known leaves changes nothing – which is why the result cache of the functor does not matter there
+  (`C08_isect_apply_side_effect` in `Vata/Properties/C08_Isect.lean`).
+* MTBDDs with set-valued leaves as transition tables of both BDD encodings, built on the operations of this file:
+  `Vata/Properties/C08.lean`, `C08_Tables.lean`.
+
 ## not yet proved
 
 * The store model has the binary apply and the 3-argument constructor only; unary/ternary apply, `Project`, `Rename`,
